@@ -429,6 +429,7 @@ def run_C05(tier, rng, stats):
             if vlib.outcome_class(x) != 'OK':
                 res['violations'].insert(0, {'kind': 'non-finite-as-error', 'cases': [list(c)], 'observed': x, 'profile': prof,
                                              'why': 'a well-formed IEEE expression returned %s instead of a value' % vlib.strip_ticks(x)})
+    l0_f64(tier, rng, stats, res)
     return res
 
 def i64_lits():
@@ -456,6 +457,7 @@ def run_C06(tier, rng, stats):
         if vlib.strip_ticks(a) != vlib.strip_ticks(b):
             res['violations'].insert(0, {'kind': 'debug-release-differ', 'cases': [list(c)], 'observed': a + ' | ' + b,
                                          'why': 'debug and release builds disagree'})
+    l0_i64(tier, rng, stats, res)
     return res
 
 def run_C09(tier, rng, stats):
@@ -480,7 +482,10 @@ def run_C09(tier, rng, stats):
     stats['rule'] = ('random mixed Integer/Float expressions over the boundary pools of both types, every arithmetic operator on all (placeholder, literal) pairs, '
                      'rounding functions on halves / negative fractions / 2^63 neighbours; variant and bits compared')
     cases, outs, model = run_streams(cs, stats, profiles=('debug', 'release'))
-    return std_judge('C09', cases, outs, model)
+    res = std_judge('C09', cases, outs, model)
+    l0_f64(tier, rng, stats, res)
+    l0_i64(tier, rng, stats, res)
+    return res
 
 def s_from(tier, rng):
     out = []
@@ -1653,6 +1658,7 @@ def run_C07(tier, rng, stats):
     res['levels']['value-vs-exact-rationals'] = (nn, nd)
     stats['rule'] = ('random fully bracketed trees over + - * and unary minus on decimal literals of varied scale and magnitude incl. 27-29 digit boundary literals, and every (a,b) pair of a pool for / and %: '
                      'compared with the model (bit exact incl. the scale) and with exact rational arithmetic (Python fractions)')
+    l0_dec(tier, rng, stats, res)
     return res
 
 # ============================================================================ C08 complex
@@ -1906,3 +1912,96 @@ def intermediates_ok(e):
 
 for _p in ['C07', 'C08', 'C15']:
     PROPS[_p] = {}
+
+# ============================================================================ level L0: primitive by primitive
+def f64_boundary_pool(rng, nrand):
+    """structured doubles: zeros, subnormals, powers of two and their neighbours, halves, 2^53 / 2^63 neighbourhoods, extremes, non-finite, random bit patterns"""
+    import struct
+    def nb(x, k):      # k-th neighbour in bit order
+        b = struct.unpack('<q', struct.pack('<d', x))[0]
+        return struct.unpack('<d', struct.pack('<q', b + k))[0]
+    xs = [0.0, -0.0, float('inf'), float('-inf'), float('nan'), 5e-324, 1e-320, 2.2250738585072014e-308, 2.225073858507201e-308, 1.7976931348623157e308,
+          0.1, 0.2, 0.3, 0.5, 1.5, 2.5, 3.5, 0.49999999999999994, 1e-17, 1e22, 1e23, 3.0, 7.0, 10.0, 1e15, 123456789.125]
+    for k in [-1074, -1022, -52, -1, 0, 1, 2, 10, 31, 32, 52, 53, 54, 62, 63, 64, 100, 1023]:
+        p = 2.0 ** k
+        xs += [p, nb(p, 1), nb(p, -1) if p > 5e-324 else p]
+    for v in [2.0**53, 2.0**63, 2.0**31, 2.0**32, 4503599627370496.5, 9007199254740993.0]:
+        xs += [v, nb(v, 1), nb(v, -1), v + 0.5, v - 0.5]
+    for _ in range(nrand):
+        b = rng.next() & 0xFFFFFFFFFFFFFFFF
+        xs.append(struct.unpack('<d', struct.pack('<Q', b))[0])
+        # random doubles of moderate exponent (so that sums and products stay finite)
+        e = rng.below(120) - 60
+        xs.append((rng.below(1 << 53) / float(1 << 52)) * 2.0 ** e * (1 if rng.chance(1, 2) else -1))
+    xs += [-x for x in xs if x == x]
+    seen, out = set(), []
+    for x in xs:
+        w = f2w(x)
+        if w not in seen:
+            seen.add(w); out.append(w)
+    return out
+
+def run_prims(reqs):
+    """reqs: list of (op, a, b|None). Returns (model_lines, machine_lines)."""
+    mlines = ['prim\t%s\t%s\t%s' % (op, a, b if b is not None else '-') for op, a, b in reqs]
+    model = vlib.run_model(mlines)
+    exe = os.path.join(vlib.ROOT, 'harness/target/debug/primsrv')
+    mach = vlib.run_sharded([exe], [' '.join([op, a] + ([b] if b is not None else [])) for op, a, b in reqs])
+    return model, mach
+
+def l0_level(res, stats, name, reqs, canon=None):
+    model, mach = run_prims(reqs)
+    n = nd = skipped = 0
+    for r, m, x in zip(reqs, model, mach):
+        if m == 'skip' or x == 'skip':
+            skipped += 1
+            continue
+        n += 1
+        mm, xx = (canon(m), canon(x)) if canon else (m, x)
+        if mm != xx:
+            nd += 1
+            res['disagreements'].append({'kind': 'primitive', 'cases': [['prim', r[0], r[1], r[2] or '-']], 'observed': x, 'expected': m})
+            res['violations'].append({'kind': 'primitive-model-mismatch', 'cases': [['prim', r[0], r[1], r[2] or '-']], 'observed': x, 'expected': m,
+                                      'why': 'Rust primitive %s(%s%s) = %s, the Gallina definition gives %s' % (r[0], r[1], (', ' + r[2]) if r[2] else '', x, m)})
+    res['levels'][name] = (n, nd)
+    stats['evaluations'] = stats.get('evaluations', 0) + 2 * len(reqs)
+    stats.setdefault('hist', {})[name] = {'compared': n, 'outside-the-written-out-domain': skipped}
+
+def l0_f64(tier, rng, stats, res):
+    pool = f64_boundary_pool(rng, 40 if tier == 'quick' else 400)
+    small = pool if tier == 'thorough' else pool[:150]
+    reqs = []
+    for op in ['sqrt', 'neg', 'abs', 'floor', 'ceil', 'round', 'trunc', 'signum', 'f2i', 'f2i32', 'f2usize']:
+        reqs += [(op, a, None) for a in pool]
+    for op in ['add', 'sub', 'mul', 'div', 'rem', 'lt', 'le', 'eq', 'tcmp']:
+        reqs += [(op, a, b) for a in small for b in small]
+    ints = [str(x) for x in gen.I64_POOL] + [str(-x) for x in gen.I64_POOL] + [str(-2**63), str(2**53 + 1), str(2**63 - 1), str(2**62 + 1), str(9007199254740993), str(-9007199254740995)]
+    ints += [str((rng.next() & 0xFFFFFFFFFFFFFFFF) - 2**63) for _ in range(200)]
+    reqs += [('i2f', a, None) for a in ints]
+    nanfix = lambda s: '7ff8000000000000' if len(s) == 16 and s.lower().startswith(('7ff', 'fff')) and int(s, 16) & 0x000FFFFFFFFFFFFF else s
+    l0_level(res, stats, 'L0 f64 primitives (Flocq definitions vs the machine)', reqs, canon=nanfix)
+
+def l0_i64(tier, rng, stats, res):
+    pool = [str(x) for x in gen.I64_POOL] + [str(-x) for x in gen.I64_POOL if x] + [str(-2**63), str(-2**63 + 1), str(2**62), str(-2**62), '4', '6', '9', '12', '-6', '15', '62', '-63', '-64']
+    pool += [str((rng.next() & 0xFFFFFFFFFFFFFFFF) - 2**63) for _ in range(20 if tier == 'quick' else 120)]
+    pool = list(dict.fromkeys(pool))
+    reqs = []
+    for op in ['ineg', 'iabs', 'isignum']:
+        reqs += [(op, a, None) for a in pool]
+    for op in ['iadd', 'isub', 'imul', 'idiv', 'irem', 'iremeuclid', 'ipow', 'ishl', 'ishr']:
+        reqs += [(op, a, b) for a in pool for b in pool]
+    l0_level(res, stats, 'L0 i64 primitives (RustInt definitions vs the machine)', reqs)
+
+def l0_dec(tier, rng, stats, res):
+    pool = ['0/0', '-0/0', '0/3', '-0/5', '0/28', '1/0', '-1/0', '1/1', '2/1', '3/1', '110/2', '3/0', '15/1', '-25/2', '5/1', '1/28', '-1/28', '9999999999999999999999999999/28',
+            '79228162514264337593543950335/0', '-79228162514264337593543950335/0', '7922816251426433759354395033/0', '7922816251426433759354395033/1',
+            '79228162514264337593543950335/28', '39614081257132168796771975168/0', '39614081257132168796771975167/0', '1234567890123456789/9', '123456789/18',
+            '18446744073709551615/0', '18446744073709551616/0', '4294967296/0', '4294967295/10', '100/2', '1000/3', '25/1', '250/2']
+    for _ in range(30 if tier == 'quick' else 300):
+        c = rng.below(10 ** (1 + rng.below(28)))
+        pool.append(('-' if rng.chance(1, 2) else '') + '%d/%d' % (c, rng.below(29)))
+    pool = list(dict.fromkeys(pool))
+    reqs = [('dneg', a, None) for a in pool]
+    for op in ['dadd', 'dsub', 'dmul', 'dcmp']:
+        reqs += [(op, a, b) for a in pool for b in pool]
+    l0_level(res, stats, 'L0 decimal exact paths (Base/Dec.v vs rust_decimal)', reqs)
